@@ -1,6 +1,15 @@
-(* Properties_C10 -- ill-formed documents are rejected; value xor error.  Statements only. *)
+(* Properties_C10 -- ill-formed documents are rejected; value xor error.  Statements only.
+   Proved for every input: value xor error (from the reader protocol over the eight readers).
+   Proved for whole documents over the reader fragment of Properties_C03/C13 (integers, keywords, lists, vectors, any
+   trivia and discarded forms in the gaps; any size and nesting): (a) input that ends inside one or more open collections
+   -- after any complete elements and trailing trivia, even an unfinished comment -- is rejected with the class
+   "unterminated collection"; (b) a collection closed by the delimiter of the other kind, at any depth and whatever
+   follows it, and (c) a closing delimiter at top level are rejected with the class "unmatched delimiter"; never a value.
+   PARTIAL: the classes for the other defects (odd map, dangling tag / discard / metadata marker, invalid tokens) and the
+   non-NULL message are decided by the correspondence run + oracle. *)
 From Coq Require Import ZArith NArith List Bool String.
-From Verif Require Import Lanes Common Values Scan Reader ReaderInv.
+From Coq.Strings Require Import Byte.
+From Verif Require Import Lanes Common Values Scan Reader ReaderInv Configs FlagProofs TriviaProofs RoundTripGap RoundTripErr.
 Import ListNotations.
 Local Open Scope N_scope.
 
@@ -38,5 +47,39 @@ Theorem C10_reader_protocol : forall f,
 Proof. exact (readers_good c o handler xe xh sort m e). Qed.
 End C10.
 
+(* (a) + (b): nested open collections around an innermost defect -- end of input (after trivia), or a complete collection
+   with the wrong closer followed by anything.  [cexact k] says which: the text of an end-of-input context ends the input *)
+Theorem C10_ill_formed_rejected_partial : forall c o m e k, In c all_cfgs -> cwf k -> (match k with CEof _ => False | _ => True end) ->
+  slice m 0 (List.length (ctext k)) = ctext k ->
+  (if cexact k then N.of_nat (List.length (ctext k)) = e else N.of_nat (List.length (ctext k)) <= e) ->
+  exists r s, run_doc c o m e = Ret r s /\ r_value r = None /\ r_eof r = false /\
+              r_err r = if cexact k then EUnterminated else EUnmatched.
+Proof. exact ill_formed_rejected. Qed.
+
+(* (c) a closing delimiter at top level, after any gap, whatever follows *)
+Theorem C10_stray_closer_rejected_partial : forall c o m e g cl, In c all_cfgs -> (cl = "]"%byte \/ cl = ")"%byte) -> gapwf g -> alt g ->
+  slice m 0 (List.length (gappr g ++ [cl])) = gappr g ++ [cl] -> N.of_nat (List.length (gappr g ++ [cl])) <= e ->
+  exists r s, run_doc c o m e = Ret r s /\ r_value r = None /\ r_eof r = false /\ r_err r = EUnmatched.
+Proof. exact stray_closer_rejected. Qed.
+
+(* the error found innermost travels outward unchanged through every enclosing collection *)
+Theorem C10_error_propagates_partial : forall c, In c all_cfgs -> forall o handler xe xh sort m e k, cwf k -> forall p,
+  slice m p (List.length (ctext k)) = ctext k ->
+  (if cexact k then p + N.of_nat (List.length (ctext k)) = e else p + N.of_nat (List.length (ctext k)) <= e) ->
+  stops c o handler xe xh sort m e p (fun _ => True) (fun s' => err s' = cerr k).
+Proof. exact ctx_stops. Qed.
+
+(* non-vacuity:  "[1 (:a ;x"  and  "[1 (:a 2]"  *)
+Example C10_truncated_example :
+  let k := COpen true [([], GInt false ["1"%byte])] [GWs [" "%byte]] (COpen false [([], GKw ["a"%byte])] [] (CEof [" "; ";"; "x"]%byte)) in
+  cwf k /\ ctext k = list_byte_of_string "[1 (:a ;x" /\ cexact k = true.
+Proof. exact truncated_example. Qed.
+Example C10_mismatched_example :
+  let k := COpen true [([], GInt false ["1"%byte])] [GWs [" "%byte]] (CBad false [([], GKw ["a"%byte]); ([GWs [" "%byte]], GInt false ["2"%byte])] []) in
+  cwf k /\ ctext k = list_byte_of_string "[1 (:a 2]" /\ cexact k = false.
+Proof. exact mismatched_example. Qed.
+
+Print Assumptions C10_ill_formed_rejected_partial.
+Print Assumptions C10_stray_closer_rejected_partial.
 Print Assumptions C10_value_xor_error.
 Print Assumptions C10_reader_protocol.
